@@ -33,8 +33,11 @@ def _is_name_class(c):
 
 
 def read_off():
-    """-> (ends, words, skipped): ends = [(std, cls, stype, named, req)], words = [(std, cls, kw, has_cls, colons, req)]"""
+    """-> (ends, words, skipped): ends = [(std, cls, stype, named, req)], words = [(std, cls, kw, has_cls, colons, req)];
+    the literal-string classes and the bracket classes are left in the module-level lists STRINGS / BRACKETS:
+    [(std, cls, [patterns], fold)] and [(std, cls, brackets, has_cls, req)]"""
     ends, words, skipped = [], [], []
+    del STRINGS[:], BRACKETS[:]
     for std, name, c, mod in _classes():
         fn = c.__dict__["match"]
         fn = getattr(fn, "__func__", fn)
@@ -54,10 +57,44 @@ def read_off():
             continue
         call = body[0].value
         fnm = ast.unparse(call.func)
-        if fnm not in ("EndStmtBase.match", "WORDClsBase.match"):
-            continue
         args = call.args
         kws = {k.arg: k.value for k in call.keywords}
+        par = f.args.args[0].arg
+        if fnm in ("STRINGBase.match", "StringBase.match"):
+            # a string or a list of strings as the pattern; the text is the parameter or its upper() (== folding)
+            if len(args) != 2 or kws:
+                continue
+            pat = args[0]
+            if isinstance(pat, ast.Constant) and isinstance(pat.value, str):
+                pats = [pat.value]
+            elif isinstance(pat, (ast.List, ast.Tuple)) and pat.elts and all(isinstance(e, ast.Constant) and isinstance(e.value, str) for e in pat.elts):
+                pats = [e.value for e in pat.elts]
+            else:
+                skipped.append((std, name, "pattern is not a literal: " + ast.unparse(pat)[:40]))
+                continue
+            arg = ast.unparse(args[1])
+            if arg == par:
+                fold = fnm == "STRINGBase.match"
+            elif arg == par + ".upper()":
+                fold = True
+            else:
+                skipped.append((std, name, "the text handed on is " + arg))
+                continue
+            STRINGS.append((std, name, pats, fold))
+            continue
+        if fnm == "BracketBase.match":
+            if len(args) != 3 or set(kws) - {"require_cls"} or ast.unparse(args[2]) != par \
+                    or not (isinstance(args[0], ast.Constant) and isinstance(args[0].value, str)):
+                skipped.append((std, name, "BracketBase.match with arguments that are not understood"))
+                continue
+            rc = kws.get("require_cls")
+            if rc is not None and not (isinstance(rc, ast.Constant) and isinstance(rc.value, bool)):
+                raise RuntimeError("%s.match: require_cls is not a constant" % name)
+            has = not (isinstance(args[1], ast.Constant) and args[1].value is None)
+            BRACKETS.append((std, name, args[0].value, has, True if rc is None else rc.value))
+            continue
+        if fnm not in ("EndStmtBase.match", "WORDClsBase.match"):
+            continue
         if len(args) < 3 or not (isinstance(args[2], ast.Name) and args[2].id == f.args.args[0].arg):
             skipped.append((std, name, "the text handed on is not the parameter itself"))
             continue
@@ -100,13 +137,17 @@ def read_off():
     return ends, words, skipped
 
 
+STRINGS = []
+BRACKETS = []
+
+
 def _txt(s):
     return "[" + "; ".join('"%s"' % ch if ch != '"' else '""""' for ch in s) + "]%char"
 
 
 def generate(gen_dir):
     ends, words, skipped = read_off()
-    if len(ends) < 10 or len(words) < 10:
+    if len(ends) < 10 or len(words) < 10 or len(STRINGS) < 8 or len(BRACKETS) < 4:
         raise RuntimeError("too few delegating classes found (%d END, %d WORD): the source layout changed" % (len(ends), len(words)))
     b = lambda x: "true" if x else "false"   # noqa
     with open(os.path.join(gen_dir, "StmtBaseGen.v"), "w") as f:
@@ -119,6 +160,13 @@ def generate(gen_dir):
         f.write("Definition word_classes : list (string * list ascii * bool * bool * bool) := [\n")
         f.write(";\n".join('  ("%s:%s", %s, %s, %s, %s)' % (std, n, _txt(k), b(h), b(c), b(r)) for std, n, k, h, c, r in words))
         f.write("].\n")
+        f.write("(* class, literal patterns, the text is upper-cased first *)\n")
+        f.write("Definition string_classes : list (string * list (list ascii) * bool) := [\n")
+        f.write(";\n".join('  ("%s:%s", [%s], %s)' % (std, n, "; ".join(_txt(p) for p in ps), b(fo)) for std, n, ps, fo in STRINGS))
+        f.write("].\n(* class, brackets, a sub-rule class is given, require_cls *)\n")
+        f.write("Definition bracket_classes : list (string * list ascii * bool * bool) := [\n")
+        f.write(";\n".join('  ("%s:%s", %s, %s, %s)' % (std, n, _txt(br), b(h), b(r)) for std, n, br, h, r in BRACKETS))
+        f.write("].\n")
         f.write("(* not modelled (match() does more than delegate, or the name class is not Name): %s *)\n"
                 % ", ".join("%s:%s" % (s, n) for s, n, _ in skipped))
 
@@ -126,4 +174,4 @@ def generate(gen_dir):
 if __name__ == "__main__":
     generate(os.path.join(os.path.dirname(os.path.abspath(__file__)), "..", "coq", "Gen"))
     e, w, s = read_off()
-    print(len(e), "END classes;", len(w), "WORD classes; skipped:", s)
+    print(len(e), "END classes;", len(w), "WORD classes;", len(STRINGS), "string classes;", len(BRACKETS), "bracket classes; skipped:", s)
